@@ -277,7 +277,7 @@ pub fn run(ctx: &Arc<Ctx>) {
     refmodels::selftest::run(&["sm4"]).unwrap_or_else(|e| ctx.machinery_error(format!("reference self-test failed: {}", e)));
     corpus_selftest(ctx);
     let lmax = ctx.tier.pick(200usize, 1100);
-    ctx.set_rule("mode x every data length 0..=Lmax x {standard key, seeded key} x IV in {0, seeded, last j bytes 0xFF for j=0..=16} x content {zero, seeded}, and long data {255..257, 1023..1025, 4095..4097, 4111, 65553 bytes; thorough up to 2^20+5} x IVs whose counter is about to carry out of 1, 2 and 8 bytes: ciphertext = reference mode output (length included), library decrypts the reference ciphertext back to the data. Error side: IV lengths 0..=32 and 16 + {256, 512, 65536}, CBC ciphertext of every length 0..=Lmax, CBC final plaintext byte every value 0..=255 (well-formed and malformed padding). Plus all operation sequences to depth 3 (thorough 4) on one mode object per mode. Oracle: textbook modes over the reference block cipher, pinned by an OpenSSL-generated corpus.");
+    ctx.set_rule("mode x every data length 0..=Lmax x {standard key, seeded key} x IV in {0, seeded, last j bytes 0xFF for j=0..=16} x content {zero, seeded}, plaintexts that already end like PKCS#7 padding (p bytes of p, p = 1..=16, at 16 / 32 / 33 / 48 bytes), and long data {255..257, 1023..1025, 4095..4097, 4111, 65553 bytes; thorough up to 2^20+5} x IVs whose counter is about to carry out of 1, 2 and 8 bytes: ciphertext = reference mode output (length included), library decrypts the reference ciphertext back to the data. Error side: IV lengths 0..=32 and 16 + {256, 512, 65536}, CBC ciphertext of every length 0..=Lmax, CBC final plaintext byte every value 0..=255 (well-formed and malformed padding). Plus all operation sequences to depth 3 (thorough 4) on one mode object per mode. Oracle: textbook modes over the reference block cipher, pinned by an OpenSSL-generated corpus.");
     ctx.note_bound(format!("Lmax={}", lmax));
     let seed_key = hex::encode(seeded(ctx.seed, "c07key", 16));
     let mut ivs: Vec<String> = vec![hex::encode([0u8; 16]), hex::encode(seeded(ctx.seed, "c07iv", 16))];
@@ -342,6 +342,19 @@ pub fn run(ctx: &Arc<Ctx>) {
         for mode in MODES {
             cases.push(Case::Mode { mode: mode.into(), len: 33, key: hex::encode(k), iv: ivs[1].clone(), content: "seed".into() });
             cases.push(Case::Mode { mode: mode.into(), len: 33, key: STD_KEY.into(), iv: hex::encode(iv), content: "seed".into() });
+        }
+    }
+    // plaintexts that already end like PKCS#7 padding (p bytes of value p, p = 1..=16) at lengths 16, 32, 33, 48:
+    // a block-aligned one still gets its own padding block, and decryption strips exactly that block
+    for total in [16usize, 32, 33, 48] {
+        for pad in 1..=16usize {
+            let mut data = content("seed", total, 0x7ad);
+            for b in data[total - pad..].iter_mut() {
+                *b = pad as u8;
+            }
+            for mode in MODES {
+                cases.push(Case::Mode { mode: mode.into(), len: total, key: STD_KEY.into(), iv: ivs[1].clone(), content: format!("hex:{}", hex::encode(&data)) });
+            }
         }
     }
     for len in 0..=lmax {
